@@ -80,13 +80,14 @@ end C20
 namespace C20S
 open KrakenModel.SchedQueue
 
-def ntor : Nat := 2
+def ntor : Nat := 3
 
 structure St where
   m : KrakenModel.SchedQueue.State := {}
   sat : List Nat := []
   cached : List Nat := []
   implCtrl : List Nat := []     -- torrents that have a control according to the implementation's last `st`
+  implReady : List String := [] -- the ready list according to the implementation's last `q=`
 
 def hashTok (h : Nat) : String := s!"h{h}"
 
@@ -119,6 +120,25 @@ def inflightMon (impl : List String) : List String :=
       else none
   | _, _ => []
 
+/-- `xs` is a subsequence of `ys` (same relative order) -/
+def subseq : List String → List String → Bool
+  | [], _ => true
+  | _ :: _, [] => false
+  | x :: xs, y :: ys => if x = y then subseq xs ys else subseq (x :: xs) ys
+
+/-- first come first served across an announce tick, judged on the implementation's ready list before and after:
+the tick takes a prefix off the list (saturated torrents it passes over, then at most one it announces or finds
+unknown) and re-queues the passed-over ones — so for some k the list afterwards is `before.drop k` followed by a
+subsequence of `before.take k`: those it did not reach stay in front, those it passed over come back in their
+arrival order (this is `Spec.C20.fifo_history` read on one tick). -/
+def tickFifo (before after : List String) : Bool :=
+  (List.range (before.length + 1)).any fun k =>
+    let rest := before.drop k
+    after.take rest.length = rest && subseq (after.drop rest.length) (before.take k)
+
+def implReadyOf (impl : List String) : Option (List String) :=
+  (kv? impl "q").map fun qt => list? ((qt.splitOn "|").headD "-")
+
 def act (s : St) (a : Action) (first : List String) (br : String) (impl : List String) : Option (St × StepOut) :=
   let m' := KrakenModel.SchedQueue.step true s.m a
   some ({ s with m := m' }, { obs := first ++ [qTok m'.q, flTok m'], branch := br, propfails := inflightMon impl })
@@ -132,6 +152,8 @@ def step (s : St) (kind : String) (args impl : List String) : Option (St × Step
     let n := match args with | [t] => (list? t).length | _ => 0
     some (s, { obs := [], branch := s!"calls.{min n 4}" })
   else if kind ≠ "op" then none else
+  (fun (r : Option (St × StepOut)) => r.map fun (s', o) =>
+    ({ s' with implReady := (implReadyOf impl).getD s'.implReady }, o)) <|
   match args with
   | ["adv", d] => do let _ ← d.toNat?; pure (s, { obs := [qTok s.m.q, flTok s.m], branch := "adv", propfails := inflightMon impl })
   | ["req", ht] => do
@@ -184,7 +206,11 @@ def step (s : St) (kind : String) (args impl : List String) : Option (St × Step
     let nskip := (ops.filter fun o => match o with | .ready _ => true | _ => false).length
     let ann := (KrakenModel.SchedQueue.step true s.m (.announceTick s.sat)).inflight ≠ s.m.inflight
     let _ := ann
-    act s (.announceTick s.sat) [] s!"atick.skip{min nskip 2}" impl
+    let pf := match implReadyOf impl with
+      | some after => if tickFifo s.implReady after then [] else
+          [s!"side=impl key=tick-requeue-not-fifo the announce tick turned the ready list {listTok s.implReady} into {listTok after}: torrents it passed over did not re-enter in arrival order"]
+      | none => []
+    (act s (.announceTick s.sat) [] s!"atick.skip{min nskip 3}" impl).map fun (s', o) => (s', { o with propfails := o.propfails ++ pf })
   | ["ares", ht] => do
     let h ← C20.hash? ht
     let r := if s.m.inflight h = 0 then "none" else "answered"
